@@ -66,3 +66,30 @@ Fixpoint crun (v : Qc) (ops : list cop) : list Qc :=
   | CSet v' :: r => crun v' r
   | CNext :: r => v :: crun v r
   end.
+
+(* Round 2: two objects alive in one process, operated in any interleaving.  Streamix / ControlStream keep no state
+   outside the object (no module or class level variable is read or written by the modelled lines), so the state of
+   the pair is the pair of the states and an operation on one side leaves the other side untouched. *)
+Inductive side := SideA | SideB.
+Definition side_eqb (a b : side) : bool :=
+  match a, b with SideA, SideA | SideB, SideB => true | _, _ => false end.
+
+Fixpoint run2 (ka : bool) (za : Qc) (kb : bool) (zb : Qc) (sa sb : st) (ops : list (side * op))
+  : list (side * out) :=
+  match ops with
+  | [] => []
+  | (SideA, o) :: r => let '(sa', x) := step ka za sa o in (SideA, x) :: run2 ka za kb zb sa' sb r
+  | (SideB, o) :: r => let '(sb', x) := step kb zb sb o in (SideB, x) :: run2 ka za kb zb sa sb' r
+  end.
+
+Definition on_side {T} (s : side) (l : list (side * T)) : list T :=
+  map snd (filter (fun p => side_eqb (fst p) s) l).
+
+Fixpoint crun2 (va vb : Qc) (ops : list (side * cop)) : list (side * Qc) :=
+  match ops with
+  | [] => []
+  | (SideA, CSet v) :: r => crun2 v vb r
+  | (SideB, CSet v) :: r => crun2 va v r
+  | (SideA, CNext) :: r => (SideA, va) :: crun2 va vb r
+  | (SideB, CNext) :: r => (SideB, vb) :: crun2 va vb r
+  end.
